@@ -1048,12 +1048,17 @@ def possible_values(ctx: Ctx, f: Func, expr: ast.AST, at: Optional[ast.AST] = No
     out: Set[object]
     # the variable of a loop over a constant table of rows: `for valid, aliases in _TABLE: ... return valid`
     if isinstance(expr, ast.Name) and expr.id not in env:
+        # every binding of the name is the target of a loop (several loops over the same constant table are fine)
+        n_stores = sum(1 for y in ast.walk(f.node) if isinstance(y, ast.Name) and y.id == expr.id and isinstance(y.ctx, ast.Store))
+        loop_binds = [lp2 for lp2 in ast.walk(f.node) if isinstance(lp2, ast.For) and any(isinstance(t2, ast.Name) and t2.id == expr.id for t2 in (lp2.target.elts if isinstance(lp2.target, ast.Tuple) else [lp2.target]))]
+        lenv = ctx.folder.local_env(f)
+        same_table = len(loop_binds) == n_stores and len({repr(ctx.folder.fold(lp2.iter, f.module, lenv)) for lp2 in loop_binds}) == 1
         for lp in ast.walk(f.node):
             if isinstance(lp, ast.For):
                 tgts = lp.target.elts if isinstance(lp.target, ast.Tuple) else [lp.target]
                 for i, t in enumerate(tgts):
-                    if isinstance(t, ast.Name) and t.id == expr.id and sum(1 for y in ast.walk(f.node) if isinstance(y, ast.Name) and y.id == expr.id and isinstance(y.ctx, ast.Store)) == 1:
-                        seq = ctx.folder.fold(lp.iter, f.module)
+                    if isinstance(t, ast.Name) and t.id == expr.id and (n_stores == 1 or same_table):
+                        seq = ctx.folder.fold(lp.iter, f.module, lenv)
                         if _known(seq) and isinstance(seq, (tuple, list)) and seq:
                             if isinstance(lp.target, ast.Tuple):
                                 if all(isinstance(r, (tuple, list)) and len(r) == len(tgts) for r in seq):
